@@ -239,7 +239,7 @@ CLAIMED = {
              "through every history (induction over the operation list: a generated key never equals a stored one); the "
              "first id-less feature of an update is stored under <featuretype>_(live counter+1); over every history the persisted "
              "counters only grow and never run ahead of the live ones (numbering continues across updates and reopenings). Tied to interface.py/"
-             "create.py by every history up to length 3 (thorough: a third of length 4) over a 15-operation alphabet plus 500 random "
+             "create.py by every history up to length 3 (thorough: a seventh of length 4) over a 16-operation alphabet plus 500 random "
              "histories up to length 8 on GFF3 databases and every history up to length 2 (thorough 3) over a 10-operation alphabet "
              "plus 150 random ones on GTF databases, all on files, comparing after EVERY step the four tables (fresh connection), "
              "the in-memory counters, the .bak content, the outcome class and the long-lived object's own view (db[id] for a "
